@@ -774,6 +774,28 @@ impl<'a> Gen<'a> {
     }
 
     fn call_expr(&mut self, ty: &Ty, depth: u32) -> Option<E> {
+        // inside a method: an earlier method of the same struct, called without naming an object
+        if let Some(si) = self.cur_struct {
+            let siblings: Vec<Func> = self.prog.structs[si].methods.iter().filter(|m| &m.ret == ty && !m.has_out && !m.writes_statics).cloned().collect();
+            if !siblings.is_empty() && self.pick(2) == 0 {
+                let m = siblings[self.pick(siblings.len())].clone();
+                if m.reads_statics {
+                    self.cur_reads_statics = true;
+                }
+                let mut args = Vec::new();
+                for p in &m.params {
+                    let mut a = if m.template.is_some() { self.expr(&p.ty, depth.saturating_sub(1)) } else { self.conv_expr(&p.ty, depth.saturating_sub(1)) };
+                    if Self::is_lit(&a) {
+                        a = E::Cast(p.ty.clone(), Box::new(a));
+                    }
+                    args.push(a);
+                }
+                return Some(match m.template {
+                    Some((_, false)) if self.pick(2) == 0 => E::CallT(m.name, self.ty_text(&m.ret), args),
+                    _ => E::Call(m.name, args),
+                });
+            }
+        }
         // pure calls only: no out parameters, no static writes
         let cands: Vec<usize> = self
             .callable
@@ -1173,6 +1195,11 @@ impl<'a> Gen<'a> {
                 let c = self.expr(&Ty::S(Sc::Bool), d);
                 return E::Ternary(Box::new(c), Box::new(self.expr(ty, d)), Box::new(self.expr(ty, d)));
             }
+            3 if matches!(ty, Ty::Struct(_)) => {
+                // a scalar converted to a struct fills every field with it; the operand is evaluated once
+                let sc = [Sc::Int, Sc::Float, Sc::UInt][self.pick(3)];
+                return E::Cast(ty.clone(), Box::new(self.expr(&Ty::S(sc), d)));
+            }
             2 => {
                 if let Ty::Enum(_) = ty {
                     return E::Cast(ty.clone(), Box::new(self.expr(&Ty::S(Sc::Int), d)));
@@ -1238,6 +1265,27 @@ impl<'a> Gen<'a> {
                 let is_const = self.pick(6) == 0;
                 let name = self.declare(ty.clone(), is_const, false);
                 out.push(St::Decl(ty, name, Some(init), is_const));
+            }
+            4 if self.prof.arrays && self.prof.structs && !self.prog.structs.is_empty() && self.pick(3) == 0 => {
+                // a struct filled from a scalar whose evaluation has an effect: `S v = (S)arr[i++ & 1];` - the operand is
+                // evaluated exactly once
+                let ints: Vec<VarInfo> = self.vars_of(&Ty::S(Sc::Int), true).into_iter().filter(|v| !v.is_static).collect();
+                let arrays: Vec<VarInfo> = self.visible().into_iter().filter(|v| matches!(&v.ty, Ty::Array(inner, _) if matches!(**inner, Ty::S(Sc::Int | Sc::UInt | Sc::Float)))).collect();
+                if !ints.is_empty() && !arrays.is_empty() {
+                    let i = ints[self.pick(ints.len())].clone();
+                    let a = arrays[self.pick(arrays.len())].clone();
+                    self.note_static(&a, false);
+                    let sty = Ty::Struct(self.pick(self.prog.structs.len()));
+                    let index = E::Bin("&", Box::new(E::PostInc("++", Box::new(E::Var(i.name, i.ty.clone())))), Box::new(E::Lit("1".into(), Ty::S(Sc::Int))));
+                    let operand = E::Index(Box::new(E::Var(a.name, a.ty.clone())), Box::new(index));
+                    let name = self.declare(sty.clone(), false, false);
+                    out.push(St::Decl(sty.clone(), name, Some(E::Cast(sty, Box::new(operand))), false));
+                } else {
+                    let ty = Ty::S(Sc::Int);
+                    let init = self.expr(&ty, 2);
+                    let name = self.declare(ty.clone(), false, false);
+                    out.push(St::Decl(ty, name, Some(init), false));
+                }
             }
             4 if self.prof.arrays => {
                 let sc = self.pick_scalar();
@@ -1519,6 +1567,18 @@ impl<'a> Gen<'a> {
         self.prog.structs.push(StructDef { name, fields, methods: Vec::new() });
         self.prog.items.push(Item::Struct(idx));
         if self.prof.methods && self.pick(2) == 0 {
+            // a template method first, so that the other methods can call it without naming an object
+            if self.prof.templates && self.pick(2) == 0 {
+                let name = self.fresh("tm");
+                let tp = self.fresh("T");
+                let a = self.fresh("p");
+                let b = self.fresh("p");
+                let t = Ty::S([Sc::Int, Sc::Float, Sc::UInt][self.pick(3)]);
+                let op = ["+", "*", "-"][self.pick(3)];
+                let body = vec![St::Return(Some(E::Bin(op, Box::new(E::Var(a, t.clone())), Box::new(E::Var(b, t.clone())))))];
+                let params = vec![Param { name: a, ty: t.clone(), io: 0, default: None }, Param { name: b, ty: t.clone(), io: 0, default: None }];
+                self.prog.structs[idx].methods.push(Func { name, ret: t, params, body, template: Some((tp, false)), writes_statics: false, reads_statics: false, has_out: false, attrs: String::new(), method_of: Some(idx), proto: 0 });
+            }
             for _ in 0..1 + self.pick(2) {
                 self.gen_func_or_method(None, Some(idx));
             }
@@ -1593,7 +1653,9 @@ impl<'a> Gen<'a> {
         let mut fields_scope = Vec::new();
         if let Some(si) = method_of {
             for (fname, fty) in self.prog.structs[si].fields.clone() {
-                fields_scope.push(VarInfo { name: fname, ty: fty, is_const: false, frozen: false, is_static: false });
+                // a write to a member is an effect outside of the method, like a write to a static: such a method is not
+                // called where the order of evaluation is unspecified
+                fields_scope.push(VarInfo { name: fname, ty: fty, is_const: false, frozen: false, is_static: true });
             }
         }
         self.scopes.push(fields_scope);
